@@ -636,11 +636,15 @@ def exec_failsave(ctx, h, scratch):
         return res
     if after != before:
         changed = sorted(set(k for k in set(before) | set(after) if before.get(k) != after.get(k)))
-        with open(dest, "rb") as f:
-            now = f.read()
+        if os.path.exists(dest):
+            with open(dest, "rb") as f:
+                now = f.read()
+            state = "destination now %d bytes%s" % (len(now), "" if now != known else " (content same, mtime changed)")
+        else:
+            state = "the destination file is gone"
         res["violation"] = {
             "class": "failed-save-touched-destination:%s" % api,
-            "detail": "%s onto an existing %d-byte file with %s raising %s (%s): destination now %d bytes%s; changed entries: %s" % (api, len(known), h["site"], h["exc"], rel, len(now), "" if now != known else " (content same, mtime changed)", changed),
+            "detail": "%s onto an existing %d-byte file with %s raising %s (%s): %s; changed entries: %s" % (api, len(known), h["site"], h["exc"], rel, state, changed),
             "sig": {"api": api, "site": h["site"]},
         }
         _match_known(h, res)
